@@ -37,7 +37,7 @@ def _rewrite(tree, olds):
                 if node.func.id == 'implies':
                     return ast.copy_location(
                         ast.BoolOp(op=ast.Or(), values=[ast.UnaryOp(op=ast.Not(), operand=node.args[0]), node.args[1]]), node)
-                if node.func.id in ('forall_int', 'exists_int'):
+                if node.func.id in ('forall_int', 'exists_int', 'forall_typed'):
                     raise SmtOnly(node.func.id)
             return node
     return ast.fix_missing_locations(R().visit(tree))
